@@ -431,20 +431,44 @@ pub fn run(ctx: &mut Ctx) {
             let mut texts: Vec<String> = (0..24).map(|_| g.wellformed(&mut rng, 3)).collect();
             texts.extend(["", "(", "{A,", "<A --> B>", "A", "(*, A, B)"].iter().map(|s| s.to_string()));
             let texts = std::sync::Arc::new(texts);
-            let rounds = if ctx.thorough { 40 } else { 6 };
+            let rounds = if ctx.thorough { 30 } else { 2 };
             for round in 0..rounds {
                 ctx.report.eval();
-                ctx.report.bump("family.16-threads-at-once");
+                ctx.report.bump("family.many-threads-at-once");
                 let panics = std::sync::Arc::new(std::sync::atomic::AtomicU64::new(0));
                 let first = std::sync::Arc::new(std::sync::Mutex::new(None::<String>));
-                let barrier = std::sync::Arc::new(std::sync::Barrier::new(16));
-                let hs: Vec<_> = (0..16)
+                // (two threads per core: pre-emption in the middle of a call is what widens the windows)
+                let nthreads = 2 * std::thread::available_parallelism().map(|n| n.get()).unwrap_or(4).clamp(4, 32);
+                let barrier = std::sync::Arc::new(std::sync::Barrier::new(nthreads));
+                let hs: Vec<_> = (0..nthreads)
                     .map(|ti| {
                         let (texts, panics, first, barrier) = (texts.clone(), panics.clone(), first.clone(), barrier.clone());
                         std::thread::spawn(move || {
                             barrier.wait();
+                            // a tight phase on tiny inputs (the entry / exit code of a call dominates: the
+                            // narrowest windows are hit most often), then the longer texts
+                            let tiny = ["A", "", "_", "(*,A)", "A."];
+                            // (the tight phase runs under ONE guard per 1000 calls: the guard's own shared
+                            // counters would otherwise pace the threads)
+                            for chunk in 0..12usize {
+                                let r = std::panic::catch_unwind(|| {
+                                    for i in 0..1000usize {
+                                        let s = tiny[(i + ti + chunk) % tiny.len()];
+                                        let _ = f.l().parse_term(s).map_err(|e| e.to_string());
+                                        if i % 4 == 0 {
+                                            let _ = f.l().parse(s).map_err(|e| e.to_string());
+                                        }
+                                    }
+                                });
+                                if r.is_err() {
+                                    panics.fetch_add(1, std::sync::atomic::Ordering::Relaxed);
+                                    if let Ok(mut g) = first.lock() {
+                                        g.get_or_insert_with(|| "parse_term / parse on a tiny input in the tight phase".to_string());
+                                    }
+                                }
+                            }
                             for i in 0..1500usize {
-                                let s = &texts[(i * 7 + ti + round) % texts.len()];
+                                let s: &str = &texts[(i * 7 + ti + round) % texts.len()];
                                 for entry in ["parse_term", "parse"] {
                                     if let Err(p) = lex_call(f, entry, s) {
                                         panics.fetch_add(1, std::sync::atomic::Ordering::Relaxed);
@@ -466,7 +490,7 @@ pub fn run(ctx: &mut Ctx) {
                     let w = first.lock().ok().and_then(|g| g.clone()).unwrap_or_default();
                     ctx.report.violate(
                         format!("C05|concurrent|{}", f.name()),
-                        format!("[{}] {} lexical call(s) panicked while 16 threads were parsing at the same time (first: {}){}", f.name(), n, w, if after { "; the parser still panics afterwards on a single thread" } else { "" }),
+                        format!("[{}] {} lexical call(s) panicked while many threads (2 per core) were parsing at the same time (first: {}){}", f.name(), n, w, if after { "; the parser still panics afterwards on a single thread" } else { "" }),
                         J::obj().set("kind", "concurrent").set("format", f.name()),
                     );
                     break;
@@ -586,7 +610,8 @@ pub fn replay(ctx: &mut Ctx, d: &J) -> Option<()> {
         return Some(());
     }
     if jstr(d, "kind")? == "concurrent" {
-        // (a schedule cannot be replayed in isolation; the family is re-run as a whole by the check)
+        // (a schedule cannot be replayed in isolation: the whole check is run again in this process)
+        super::rerun_fixed(ctx);
         return Some(());
     }
     if jstr(d, "kind")? == "fold" {
